@@ -1,5 +1,7 @@
 package main
 
+import "golang.org/x/tools/go/ssa"
+
 func init() {
 	register(&PropInfo{
 		ID:    "C17",
@@ -12,6 +14,10 @@ func init() {
 		Assumptions: trustedBase,
 		Run: func(m *Model, s *Sink) {
 			m.RunResponse(s, "R-RESPONSE")
+			// nothing a failed (or debug-mode) response leaves behind may reach a later response
+			if resp := m.Method("textwire", "Template", "Response"); resp != nil {
+				m.RunSharedWrites(s, "R-SHARED", []*ssa.Function{resp}, "history")
+			}
 			s.RequireMin("R-RESPONSE", 12, "writer flow, 8 case-evaluation clauses, Error never nil, debugMode, embedded page")
 		},
 	})
